@@ -88,6 +88,16 @@ public class FixOv {
     BigInteger r = BigInteger.ZERO; for (BigInteger[] row : toMat(a)) for (BigInteger x : row) r = r.max(x.abs()); return fromBig(r); }
   @TLAPlusOperator(identifier = "MFrob", module = "Fix", warn = false) public static Value mfrob(Value a, Value b) {
     BigInteger[][] A = toMat(a), Bm = toMat(b); BigInteger r = BigInteger.ZERO; for (int i = 0; i < A.length; i++) for (int j = 0; j < A[i].length; j++) r = r.add(mul(A[i][j], Bm[i][j])); return fromBig(r); }
+  @TLAPlusOperator(identifier = "MAbs", module = "Fix", warn = false) public static Value mabs(Value a) {
+    BigInteger[][] A = toMat(a); for (int i = 0; i < A.length; i++) for (int j = 0; j < A[i].length; j++) A[i][j] = A[i][j].abs(); return fromMat(A); }
+  static int ratio(BigInteger x, BigInteger y) { if (y.signum() == 0) return x.signum() == 0 ? 0 : 2000000000;
+    BigInteger r = x.multiply(BigInteger.valueOf(1000)).divide(y); return r.compareTo(BigInteger.valueOf(30000L * 32768L)) >= 0 ? 2000000000 : r.intValue(); }
+  @TLAPlusOperator(identifier = "MRatioMilli", module = "Fix", warn = false) public static Value mratio(Value a, Value c, Value t) {
+    BigInteger[][] A = toMat(a), C = toMat(c), T = toMat(t); int m = 0;
+    for (int i = 0; i < A.length; i++) for (int j = 0; j < A[i].length; j++) m = Math.max(m, ratio(A[i][j].subtract(C[i][j]).abs(), T[i][j]));
+    return IntValue.gen(m); }
+  @TLAPlusOperator(identifier = "MStrict", module = "Fix", warn = false) public static Value mstrict(Value a) { return fromMat(toMat(a)); }
+  @TLAPlusOperator(identifier = "VStrict", module = "Fix", warn = false) public static Value vstrict(Value a) { return fromVec(toVec(a)); }
   // Gauss-Jordan with partial pivoting in the same fixed point (agrees with the cofactor
   // definition up to rounding in the last bits; compared with a tolerance in FixSelfTest)
   static BigInteger[][] inv(BigInteger[][] A0) {
